@@ -98,6 +98,50 @@ def readValue : Nat → Sexp → M (Option Value)
       else pure none
     | _ => pure none
 
+/-- Hidden capacity at the final read-out (DESIGN Appendix B 15): is the store `p` — the store the result
+of an `append` got — written since, directly or through further appends made from arrays over it? -/
+def staleStore (st : St) : Nat → Nat → Bool
+  | 0, _ => false
+  | f + 1, p =>
+    st.dirty.contains p ||
+      (List.range st.heap.size).any (fun h =>
+        match st.heap[h]? with
+        | some (.arr p' _ _) =>
+          p' == p && (match st.appendedFrom.lookup h with
+            | some q => staleStore st f q
+            | none => false)
+        | _ => false)
+
+/-- Does the value, as the host reads it after the run, contain an array to which `append` was applied
+and whose result was modified afterwards? What such an array holds depends on spare capacity. -/
+def staleValue : Nat → St → Value → Bool
+  | 0, _, _ => false
+  | d + 1, st, v =>
+    let elems (r : Nat) : List Value :=
+      match st.heap[r]? with
+      | some (.arr s off len) =>
+        match st.heap[s]? with
+        | some (.store vs _) => (vs.toList.drop off).take len
+        | _ => []
+      | _ => []
+    let here (r : Nat) : Bool :=
+      match st.appendedFrom.lookup r with
+      | some p => staleStore st 6 p
+      | none => false
+    match v with
+    | .arr r | .imarr r => here r || (elems r).any (staleValue d st)
+    | .map r | .immap r =>
+      (match st.heap[r]? with
+       | some (.map kvs) => kvs.any (fun kv => staleValue d st kv.2)
+       | _ => false)
+    | .err r =>
+      (match st.heap[r]? with
+       | some (.err x) => staleValue d st x
+       | _ => false)
+    | _ => false
+
+def staleText : String := "excluded read-out_of_an_array_after_the_result_of_append_on_it_was_modified_(hidden_capacity)"
+
 def insertByName (p : String × String) : List (String × String) → List (String × String)
   | [] => [p]
   | q :: qs => if p.1 ≤ q.1 then p :: q :: qs else q :: insertByName p qs
@@ -120,6 +164,7 @@ def handleSpec : List Sexp → String
       | .ok (some inputs, st0) =>
         match runProgram fuel inputs st0 ss with
         | .ok gs st =>
+          if gs.any (fun (_, v) => staleValue 64 st v) then staleText else
           let shown := gs.map (fun (n, v) => (n, showValue 64 st v))
           let sorted := shown.foldl (fun acc p => insertByName p acc) []
           "ok" ++ String.join (sorted.map (fun (n, v) => " (#" ++ hexOfString n ++ " " ++ v ++ ")"))
